@@ -173,6 +173,17 @@ func (t *Topic) DeleteExistingChannel(channelName string) error {
 		go t.deleter.Do(func() { t.deleteCallback(t) })
 	}
 
+	if !channel.ephemeral && !t.ephemeral {
+		// the metadata was persisted (via Notify) while the channel was still
+		// in the map; persist again now that it is gone
+		t.nsqd.Lock()
+		err := t.nsqd.PersistMetadata()
+		if err != nil {
+			t.nsqd.logf(LOG_ERROR, "failed to persist metadata - %s", err)
+		}
+		t.nsqd.Unlock()
+	}
+
 	return nil
 }
 
